@@ -261,7 +261,7 @@ def pretty_leaf():
                      st.sampled_from([None, "crop", "fold", "ellipsis", "ignore"]), st.sampled_from([None, False, True]))
 
 
-def other_leaves():
+def other_leaves(which=None):
     from rich._spinners import SPINNERS
 
     from rich._emoji_codes import EMOJI
@@ -270,7 +270,7 @@ def other_leaves():
     emoji = st.builds(lambda n, sty: {"k": "emoji", "name": n, "style": sty}, st.sampled_from(sorted(EMOJI)[::97]), st.sampled_from(["none", "bold red"]))
     spinner = st.builds(lambda n, t, tx, sp: {"k": "spinner", "name": n, "time": t, "text": tx, "speed": sp}, st.sampled_from(names), st.floats(0, 100, allow_nan=False), st.sampled_from(["", "working [bold]hard[/]", "漢字 " * 5]),
                         st.sampled_from([1.0, 0.5, 3.0]))
-    return st.one_of(emoji, spinner)
+    return st.one_of(emoji, spinner) if which is None else {"emoji": emoji, "spinner": spinner}[which]
 
 
 def _build_markdown(n):
@@ -314,6 +314,25 @@ def _build_syntax(n):
     return Syntax(n["code"], "python", line_numbers=n["line_numbers"], line_range=tuple(n["line_range"]) if n["line_range"] else None, word_wrap=n["word_wrap"])
 
 
+def _wide_min(text):
+    from ..oracles import cells as OC
+
+    return 2 if any(OC.cw(c) == 2 for c in text) else 1
+
+
+def _syntax_min(n):
+    # the gutter (marker, right-aligned number, space) plus one character of code
+    gutter = len(str(1 + n["code"].count("\n"))) + 3 if n["line_numbers"] else 0
+    return gutter + _wide_min(n["code"])
+
+
+def _spinner_min(n):
+    from rich._spinners import SPINNERS
+
+    return _wide_min("".join(SPINNERS[n["name"]]["frames"]) + n["text"]) + (0 if not n["text"] else 0)
+
+
+GT.EXTRA_MIN.update({"emoji": lambda n: 2, "syntax": _syntax_min, "pretty": lambda n: _wide_min(n["v"]), "markdown": lambda n: _wide_min(n["src"]), "spinner": _spinner_min})
 GT.EXTRA_BUILDERS.update({"markdown": _build_markdown, "pretty": _build_pretty, "emoji": _build_emoji, "spinner": _SpinnerAt, "syntax": _build_syntax})
 
 
